@@ -64,8 +64,12 @@ def rows_of_snapshot(snap):
 def argv_for(params, wd):
     site, starts = c01.get_site(params)
     argv_o, ro = c01.OPTSETS[params['opts']]
-    return (list(starts) + argv_o + ['--no-robots', '--delete-after', '--waitretry', '0',
-                                     '--database', os.path.join(wd, DBNAME)]), ro
+    db = ['--database', os.path.join(wd, DBNAME)]
+    if params.get('db_uri'):
+        # the other documented way to name the same on-disk database
+        db = ['--database-uri', 'sqlite:///' + os.path.join(wd, DBNAME)]
+    return (list(starts) + argv_o + ['--no-robots', '--delete-after', '--waitretry', '0']
+            + db), ro
 
 
 class scaled_batches:
@@ -279,6 +283,10 @@ def jobs(tier, seed):
             js.append(dict(params=dict(site=s, opts=o, conc=c), budget=budget, prefix=[]))
     # start URLs are stored in batches (1000 per transaction in wpull; the harness scales the
     # batch size down to 2 so that five start URLs span three transactions)
+    js.append(dict(params=dict(site='cycle', opts='r', conc=1, db_uri=True), budget=0,
+                   prefix=[]))
+    js.append(dict(params=dict(site='reqs', opts='r-p', conc=2, db_uri=True), budget=0,
+                   prefix=[]))
     js.append(dict(params=dict(site='fivestart', opts='none', conc=1, input_batch=2),
                    budget=0, prefix=[]))
     js.append(dict(params=dict(site='fivestart', opts='r', conc=2, input_batch=2),
